@@ -49,8 +49,18 @@ def _sqrt(x):
     return np.sqrt(x)
 
 
+def _np_method(name):
+    def f(*xs):
+        if any(isinstance(x, (SFloat, SBool, SInt)) for x in xs):
+            return getattr(_sf(xs[0]), name)(*xs[1:])
+        return getattr(np, name)(*xs)
+    return f
+
+
 REF_FUNCS: Dict[str, Callable] = {
     'exp': _exp, 'log': _log, 'max': max, 'min': min, 'abs': abs, 'np.sqrt': _sqrt, 'myexp': _myexp,
+    'np.log10': _np_method('log10'), 'np.log1p': _np_method('log1p'), 'np.expm1': _np_method('expm1'), 'np.log2': _np_method('log2'),
+    'np.arctan2': _np_method('arctan2'),
 }
 
 
